@@ -633,7 +633,7 @@ def check(c):
         sc["ops"] = [o.replace("@REPO@", str(vlib.REPO)) for o in sc["ops"]]
         ncorp += 1
         ok_all &= judge(c, binp, sc, f"corpus {f.name}", totals)
-    n = 36 if c.tier == "quick" else 3000
+    n = 36 if c.tier == "quick" else 2000
     # every kind at least once, then random
     kinds = ["jsgf", "align-special", "fsg-special", "noise", "lead-null", "empty-align", "no-grammar", "short"]
     scs = [gen_scenario(c.rng, c.tier, stats, kind=kinds[i] if i < len(kinds) else None) for i in range(n)]
